@@ -90,6 +90,8 @@ class DLTypeContext:
         self.tensor_shape_map: EvaluatedDimensionT = {}
         # mapping of tensor name -> tensor type, used to check for duplicates
         self.registered_tensor_dtypes: dict[str, _dtypes.DLtypeDtypeT] = {}
+        # mapping of named multiaxis -> number of axes it stands for
+        self._multiaxis_lengths: dict[str, int] = {}
 
     def add(
         self,
@@ -148,6 +150,7 @@ class DLTypeContext:
                     expected_shape,
                     tensor_context.tensor,
                 )
+                self._assert_multiaxis_length(tensor_context)
 
         finally:
             end_t = time.perf_counter_ns()
@@ -160,6 +163,23 @@ class DLTypeContext:
                     UserWarning,
                     stacklevel=2,
                 )
+
+    def _assert_multiaxis_length(self, tensor_context: _ConcreteType) -> None:
+        """Check that a named multiaxis stands for the same number of axes everywhere in the context."""
+        annotation = tensor_context.dltype_annotation
+        if annotation.multiaxis_name is None:
+            return
+        n_fixed_dims = len(annotation.expected_shape) - 1
+        n_actual_dims = len(tensor_context.tensor.shape)
+        n_multiaxis_dims = self._multiaxis_lengths.setdefault(
+            annotation.multiaxis_name, n_actual_dims - n_fixed_dims
+        )
+        if n_actual_dims != n_fixed_dims + n_multiaxis_dims:
+            raise _errors.DLTypeNDimsError(
+                expected=n_fixed_dims + n_multiaxis_dims,
+                actual=n_actual_dims,
+                tensor_name=tensor_context.tensor_arg_name,
+            )
 
     def _assert_tensor_shape(
         self,
